@@ -36,17 +36,19 @@ where
 
       source.inner_subscribe(sctl.new_observer(
         move |_, x| {
-          {
+          // the lock is released before downstream is called, so that a
+          // subscriber may emit into the source from its callback
+          let x = {
             let mut r = result_next.write().unwrap();
-            if let Some(xx) = &*r {
-              *r = Some(f.call((xx.clone(), x)));
+            let x = if let Some(xx) = &*r {
+              f.call((xx.clone(), x))
             } else {
-              *r = Some(x);
-            }
-          }
-          if let Some(x) = &*result_next.read().unwrap() {
-            sctl_next.sink_next(x.clone());
-          }
+              x
+            };
+            *r = Some(x.clone());
+            x
+          };
+          sctl_next.sink_next(x);
         },
         move |_, e| {
           sctl_error.sink_error(e);
